@@ -978,6 +978,9 @@ impl ServiceTargetActor {
         let ghost h0 = self.helper;
         let ghost t0 = self.target;
 //@loop 0
+            invariant_except_break
+                // a loop that never exits satisfies every postcondition: the termination event must end this iteration
+                /*[C10.actor-exit]*/ !tr.term_seen,
             invariant
                 /*[C04.nopanic]*/ self.helper.wf(), self.helper.same_static(&h0), self.target == t0,
                 /*[C01.identity]*/ self.helper.target_id == tr.me && tr.ids_ok,
@@ -1078,6 +1081,8 @@ impl AggregateTargetActor {
         broadcast use vstd::std_specs::hash::group_hash_axioms;
         let ghost h0 = self.helper;
 //@loop 0
+            invariant_except_break
+                /*[C10.actor-exit]*/ !tr.term_seen,
             invariant
                 /*[C04.nopanic]*/ self.helper.wf(), self.helper.same_static(&h0),
                 /*[C04.nopanic]*/ dependencies@.contains_key(ExecutionKind::Build) && dependencies@.contains_key(ExecutionKind::Service),
